@@ -4,7 +4,7 @@ Hand model of the output-ring clean-up (clipper_base.go): the vertex-removal loo
 `cleanCollinear` and `buildPath`.  An output ring (circular doubly linked list of `OutPt`) is a
 `List Point64` in `next` order; positions are indices into it.  `Gen.isCollinear`,
 `Gen.dotProduct64`, `Gen.ptsReallyClose` are the GENERATED definitions.  `fixSelfIntersects`
-(called by `cleanCollinear` after the loop) is not modelled.  Tied to the code by
+(called by `cleanCollinear` after the loop) is `Model.Split`; the two are composed in `Model.BuildPaths`.  Tied to the code by
 `models-corr clean|build` (verif hooks `VCleanCollinear`, `VBuildPath`).
 -/
 namespace Model
